@@ -433,4 +433,99 @@ theorem C12_other_findings_witness :
         { top := [], method := some "config", cfgTop := .tok "cfg" } = .error .parse
     ∧ autoCli exBody true (.func "f" [⟨"_x", .posOrKw, .none, true⟩]) { top := [] } = .error .typeError := by decide
 
+/-! ## `set_defaults` and positional-only parameters -/
+
+theorem overrideSig_names (sd : KV) (sig : Sig) : (overrideSig sd sig).map (·.name) = sig.map (·.name) := by
+  simp only [overrideSig, List.map_map]
+  apply List.map_congr_left
+  intro p _
+  simp only [Function.comp]
+  split <;> rfl
+
+theorem overrideSig_nil (sig : Sig) : overrideSig [] sig = sig := by
+  induction sig with
+  | nil => rfl
+  | cons p r ih =>
+    simp only [overrideSig, List.map_cons] at ih ⊢
+    rw [ih]
+    rfl
+
+/-- `auto_cli(f, set_defaults=sd)`: exactly one call, every parameter bound to the value given, else to the value of
+    `set_defaults`, else to the signature default (`bind` over the overridden signature); the call's value is returned -/
+theorem C12_set_defaults_binding (body : Body) (asPos : Bool) (f : String) (sig : Sig) (sd : KV) (g : Given) (r : Run)
+    (hd : distinctNames sig = true) (hr : noReserved sig = true)
+    (h : autoCliX body asPos (.func f sig) { sdTop := sd } g = .ok r) :
+    ∃ args, Cli.bind (overrideSig sd sig) g.top = some args ∧ r.calls = [⟨.func f, args⟩] ∧ r.ret = body (.func f) args := by
+  have hd' : distinctNames (overrideSig sd sig) = true := by
+    simpa [distinctNames, overrideSig_names] using hd
+  have hr' : noReserved (overrideSig sd sig) = true := by
+    have e : ∀ s : Sig, noReserved s = (s.map (·.name)).all (fun n => !reservedNames.contains n) := by
+      intro s; simp [noReserved, List.all_map, Function.comp_def]
+    rw [e, overrideSig_names, ← e]; exact hr
+  simp only [autoCliX] at h
+  split at h
+  · cases h
+  · split at h
+    · cases h
+    · rename_i r' hr''
+      have hpo : poHit ([] : List String) sig = false := by simp [poHit]
+      simp only [topSig, chosenSig, hpo, Bool.false_eq_true, if_false] at h
+      cases h
+      exact C12_binding body asPos f (overrideSig sd sig) g r hd' hr' (by simpa [overrideComp] using hr'')
+
+/-- what the overridden default means for one parameter: the given value, else the `set_defaults` value -/
+theorem C12_set_defaults_param (given : KV) (p : Param) (v : Val) :
+    bindParam given { p with dflt := some v } = some (p.name, (lookup p.name given).getD v) := by
+  simp only [bindParam, effDefault]
+  cases lookup p.name given <;> rfl
+
+theorem map_override_nil (m : Option String) (ms : List Method) :
+    ms.map (fun md => if some md.name == m then ⟨md.name, overrideSig [] md.sig⟩ else md) = ms := by
+  induction ms with
+  | nil => rfl
+  | cons md r ih =>
+    rw [List.map_cons, ih, overrideSig_nil]
+    split <;> rfl
+
+/-- without `set_defaults` and without a positional-only parameter that has a parser argument, nothing changes: every
+    theorem about `autoCli` is a theorem about `autoCliX` -/
+theorem C12_ext_conservative (body : Body) (asPos : Bool) (comp : Comp) (po1 po2 : List String) (g : Given)
+    (h1 : poHit po1 (topSig comp) = false) (h2 : poHit po2 (chosenSig comp g.method) = false) :
+    autoCliX body asPos comp { poTop := po1, poSub := po2 } g = autoCli body asPos comp g := by
+  have hc : overrideComp { poTop := po1, poSub := po2 } g.method comp = comp := by
+    cases comp with
+    | func f sig => simp [overrideComp, overrideSig_nil]
+    | cls c init ms =>
+      simp only [overrideComp]
+      rw [map_override_nil, overrideSig_nil]
+  simp only [autoCliX, sdKnown, List.all_nil, Bool.and_self, Bool.not_true, Bool.false_eq_true, if_false, hc, h1, h2]
+  cases autoCli body asPos comp g <;> rfl
+
+/-- FULL STATEMENT for signatures with positional-only parameters (false in the code and in the faithful model): the
+    component is called with the parsed values.  OPEN FINDING C12-positional-only-typeerror, negation witness:
+    `def f(a: int, /, b: int = 2)` with `a` given: the value is parsed and then handed over BY KEYWORD — Python refuses
+    (TypeError), the function is never called; for a class whose method has a positional-only parameter the object is
+    constructed and the method call fails -/
+theorem C12_positional_only_witness :
+    autoCliX exBody' true (.func "f" [⟨"a", .posOrKw, .none, false⟩, ⟨"b", .posOrKw, some (.tok "2"), false⟩])
+        { poTop := ["a"] } { top := [("a", .tok "5")] } = .error .typeError
+    ∧ autoCliX exBody' true (.cls "K" [⟨"p", .posOrKw, some (.tok "1"), false⟩] [⟨"run", [⟨"x", .posOrKw, .none, false⟩]⟩])
+        { poSub := ["x"] } { top := [], method := some "run", sub := [("x", .tok "7")] }
+      = .error (.typeErrorAfter ⟨.init "K", [("p", .tok "1")]⟩) := by decide
+
+/-- non-vacuity: `set_defaults={"b": 9}` reaches the callee, a given value wins over it, a hidden positional-only
+    parameter (private, with default: no parser argument) does no harm -/
+example :
+    autoCliX exBody' true (.func "g" [⟨"a", .posOrKw, .none, false⟩, ⟨"b", .posOrKw, some (.tok "2"), false⟩])
+        { sdTop := [("b", .tok "9")] } { top := [("a", .tok "5")] }
+      = .ok ⟨[⟨.func "g", [("a", .tok "5"), ("b", .tok "9")]⟩], .tok "g"⟩
+    ∧ autoCliX exBody' true (.func "g" [⟨"a", .posOrKw, .none, false⟩, ⟨"b", .posOrKw, some (.tok "2"), false⟩])
+        { sdTop := [("b", .tok "9"), ("a", .tok "4")] } { top := [("b", .tok "1")] }
+      = .ok ⟨[⟨.func "g", [("a", .tok "4"), ("b", .tok "1")]⟩], .tok "g"⟩
+    ∧ autoCliX exBody' true (.func "g" [⟨"_h", .posOrKw, some (.tok "0"), false⟩, ⟨"b", .posOrKw, some (.tok "2"), false⟩])
+        { poTop := ["_h"] } { top := [] }
+      = .ok ⟨[⟨.func "g", [("_h", .tok "0"), ("b", .tok "2")]⟩], .tok "g"⟩
+    ∧ autoCliX exBody' true (.func "g" [⟨"b", .posOrKw, some (.tok "2"), false⟩]) { sdTop := [("zz", .tok "9")] } { top := [] }
+      = .error .crash := by decide
+
 end Jap.Props.C12
